@@ -132,8 +132,10 @@ def run_session(data, py, soa, ropefolder, steps):
 def session_oracle(data, steps, obs):
     """Returns (index of the first failing step, message) or (None, None).  Judged from bytes on disk only.
     undo / redo have to restore exactly the bytes the file had before / after the change, as long as the file is
-    still as that change left it; an edit has to produce the new text in the file's declared encoding and newline
-    convention (any convention if the file has no line break at that moment)."""
+    still as that change left it and nothing rewrote the file outside rope since the change was last used (after an
+    external conversion the File objects and the disk may legitimately disagree about the convention: then only the
+    TEXT has to come back, in the declared encoding and one convention); an edit has to produce the new text in the
+    file's declared encoding and newline convention (any convention if the file has no line break at that moment)."""
     disk = data
     undo, redo = [], []
     for k, (st, o) in enumerate(zip(steps, obs)):
@@ -146,12 +148,13 @@ def session_oracle(data, steps, obs):
             if after != disk:
                 fail = "%s changed the bytes on disk" % kind
         elif kind == "external":
-            pass
+            for e in undo + redo:
+                e["tainted"] = True
         elif kind in ("write", "dofresh", "dosame"):
             new = txt(st[1])
             tag, fail = c16.edit_oracle(disk, new, kind == "write", o["code"], after, o["reread"], lenient_no_break=True)
             if o["code"] == 0:
-                undo.append({"before": disk, "after": after})
+                undo.append({"before": disk, "after": after, "tainted": False})
                 redo = []
         elif kind in ("undo", "redo"):
             src, dst, want = (undo, redo, "before") if kind == "undo" else (redo, undo, "after")
@@ -164,7 +167,11 @@ def session_oracle(data, steps, obs):
                 if o["code"] == 0:
                     src.pop()
                     dst.append(e)
-                    if disk == e[have] and after != e[want]:
+                    if e["tainted"]:
+                        specs = [c16.spec_of_bytes(x) for x in (after, e[want], disk, e[have])]
+                        if None not in specs and specs[2][1] == specs[3][1] and specs[0][1] != specs[1][1]:
+                            fail = "%s does not bring back the text the file had %s the change" % (kind, want)
+                    elif disk == e[have] and after != e[want]:
                         fail = "%s does not restore the bytes the file had %s the change: %r instead of %r" % (
                             kind, want, after[:120], e[want][:120])
                 elif after != disk:
